@@ -121,18 +121,23 @@ func routerDiffers(pos, s string, valid bool) string {
 		// as the repository of a path, when no element could be taken for a routing word
 		for _, e := range elems {
 			for _, w := range routingWords {
-				if e == w || e == "" {
+				if e == w {
 					return ""
 				}
 			}
 		}
+		// accepted at all (under whatever name) only if valid; and if valid, under exactly this name
 		r := parse("GET", "/v2/"+s+"/tags/list", "")
-		if (r != nil && r.Kind == ociverif.ReqTagsList && r.Repo == s) != valid {
+		if acc := r != nil && r.Kind == ociverif.ReqTagsList; acc != valid || (acc && r.Repo != s) {
 			return "router-differs:repo"
 		}
 		r = parse("GET", "/v2/"+s+"/blobs/sha256:"+strings.Repeat("0", 64), "")
-		if (r != nil && r.Kind == ociverif.ReqBlobGet && r.Repo == s) != valid {
+		if acc := r != nil && r.Kind == ociverif.ReqBlobGet; acc != valid || (acc && r.Repo != s) {
 			return "router-differs:repo-of-blob"
+		}
+		r = parse("DELETE", "/v2/"+s+"/manifests/latest", "")
+		if acc := r != nil && r.Kind == ociverif.ReqManifestDelete; acc != valid || (acc && r.Repo != s) {
+			return "router-differs:repo-of-manifest"
 		}
 	case "tag": // valid = a tag or a digest
 		if len(elems) != 1 || s == "" {
